@@ -158,6 +158,19 @@ impl Check for C03 {
             let d = roots[0].clone();
             let mut budget = 1;
             if let Some(spec) = b_spec(&d, &mut budget) {
+                // now and then the validator is a named type that was created with another definition, used, and then
+                // overridden with this one
+                let spec = if s.chance(1, 3) {
+                    let first = match s.below(4) {
+                        0 => json!({"k":"unknown"}),
+                        1 => json!({"k":"string"}),
+                        2 => json!({"k":"object","fields":[["a", {"k":"string"}]]}),
+                        _ => json!({"k":"array","item":{"k":"number"}}),
+                    };
+                    json!({"k":"named_ov","first":first,"item":spec})
+                } else {
+                    spec
+                };
                 let vals = gen_values(&env, &d, s, Mode::Open, 6, 6, 5);
                 case.adhoc.push((d, spec, vals));
             }
